@@ -39,6 +39,17 @@ def stepOp (op : List String) : Option (List (List String) × Option (List Strin
     let m := Like.evalRewritten '%' '_' t (Like.convertLike '%' '_' p)
     let s := Like.likeSpec '%' '_' p t
     some ([["r", boolTok m]], some ["r", boolTok s], "sql")
+  | ["combo", pos, t, p, xc, yc] => do
+    -- LIKE next to IS [NOT] NULL: `CASE WHEN x LIKE p THEN 'L' WHEN y IS NULL THEN 'N' ELSE 'E' END`,
+    -- `HAVING x LIKE p AND ly IS NOT NULL`; a NULL / missing x makes LIKE not true
+    let t ← unhex t; let p ← unhex p
+    let x ← cellOf xc; let y ← cellOf yc
+    let likeM := x == .present && Like.evalRewritten '%' '_' t (Like.convertLike '%' '_' p)
+    let likeS := x == .present && Like.likeSpec '%' '_' p t
+    let res (l : Bool) : String :=
+      if pos == "casecombo" then (if l then "L" else if IsNull.isNullSpec y then "N" else "E")
+      else boolTok (l && !IsNull.isNullSpec y)
+    some ([["r", res likeM]], some ["r", res likeS], "combo-" ++ pos)
   | ["isnull", path, cell, neg] => do
     let c ← cellOf cell
     let n := neg == "not"
